@@ -303,7 +303,7 @@ func cmdCheck(args []string) int {
 	insts := spec.Instances(obs, *tier, seed)
 	for _, in := range insts {
 		if in.TimeLimit == 0 {
-			in.TimeLimit = 8 * time.Minute
+			in.TimeLimit = 15 * time.Minute
 			if *tier == "thorough" {
 				in.TimeLimit = 45 * time.Minute
 			}
@@ -518,7 +518,11 @@ func writeEvidence(verif, prop, tier string, seed int64, obs []*spec.Oblig, sums
 	var assumptions []string
 	realSet := map[string]bool{}
 	for _, o := range obs {
-		oblDocs = append(oblDocs, map[string]interface{}{"id": o.ID, "harness": o.Pkg + ":" + o.Func, "what": o.Desc, "bound": o.Bound, "real_functions": o.Real, "stubs_and_assumptions": o.Stubs})
+		bound := o.Bound
+		if spec.EffectiveTier(o.ID, "thorough") == "quick" {
+			bound += " [registered thorough tier: the quick configurations; deeper ones named here exceeded the time cap or came back inconclusive when tried]"
+		}
+		oblDocs = append(oblDocs, map[string]interface{}{"id": o.ID, "harness": o.Pkg + ":" + o.Func, "what": o.Desc, "bound": bound, "real_functions": o.Real, "stubs_and_assumptions": o.Stubs})
 		for _, s := range o.Stubs {
 			assumptions = append(assumptions, o.ID+": "+s)
 		}
